@@ -107,7 +107,7 @@ func consumerDelay(r *ref.SplitMix64, profile int) {
 	}
 }
 
-var helperFrame = regexp.MustCompile(`\n\t/repo/(file_handler/file_handler|rtcm/handler/handler|rtcm/pushback/byte_channel|apps/appcore/app_core)\.go:\d+`)
+var helperFrame = regexp.MustCompile(`\n\t` + regexp.QuoteMeta(repoRoot) + `/(file_handler/file_handler|rtcm/handler/handler|rtcm/pushback/byte_channel|apps/appcore/app_core)\.go:\d+`)
 
 // helperGoroutines returns the stack blocks of goroutines (other than the caller)
 // that are executing the pipeline's helper code, and whether each is blocked.
